@@ -12,7 +12,7 @@ from engine.expr import Ex, norm, show, walk, alts
 from engine.intervals import dominating_facts
 from engine.mir import AnchorLost, callee_matches
 from engine.paths import paths, decided, called, outcome
-from engine.query import calls_matching, where, find_switch_on, aggregates, ret_alts
+from engine.query import calls_matching, where, find_switch_on, aggregates, ret_alts, single_bit
 from rules.C01 import msdos_arg_order
 from rules.shared_codec import reader_table, tokens
 
@@ -73,7 +73,7 @@ def refuse_rules(facts, rep):
         raise AnchorLost("Take in read_zipfile_from_stream")
     fs = dominating_facts(st, ex, tk[0][0])
     enc = [x for x in fs if x[0] in ("Ne", "Eq") and any(y[0] == "bin" and y[1] == "BitAnd" and y[3] == ("const", "u16", 1) for y in walk(x[1]))]
-    dd = [x for x in fs if x[0] in ("Ne", "Eq") and any(y[0] == "bin" and y[1] == "BitAnd" and y[3][0] == "bin" and y[3][1] == "Shl" and y[3][3][2] == 3 for y in walk(x[1]))]
+    dd = [x for x in fs if x[0] in ("Ne", "Eq") and any(y[0] == "bin" and y[1] == "BitAnd" and single_bit(y[3]) == 3 for y in walk(x[1]))]
     # encrypted = (flags & 1 == 1) must be false: fact Ne(flags&1, 1); dd = (flags & 8 != 0) must be false: fact Eq(flags&8, 0)
     good_e = any(x[0] == "Ne" and x[2][2] == 1 for x in enc)
     good_d = any(x[0] == "Eq" and x[2][2] == 0 for x in dd)
